@@ -404,6 +404,7 @@ AllShards ==
     \cup Binary("scalar_mult", {<<s, <<>>>> : s \in UpTo3}, {<<"g", "I">>, <<"u", "I">>}, <<<<"none">>>>)
     \cup Binary("scalar_mult", {<<<<>>, s>> : s \in UpTo3}, {<<"I", "g">>, <<"I", "u">>}, <<<<"none">>>>)
     \cup Binary("elementwise_mult", Same(UpTo3), M3, <<>>)
+    \cup Binary("elementwise_mult", {<<<<>>, <<>>>>}, {<<"g", "I">>, <<"I", "g">>}, <<>>)   \* the alias, with the constant on either side
     \cup Binary("matmul", {p \in MMPairs : p[1][2] = p[2][1]}, M3, <<>>)
     \cup Binary("matmul", {p \in MMPairs : p[1][2] # p[2][1]}, MX, <<>>)
     \cup Binary("inner_prod", Same(R1) \cup Same({<<>>}), M3, <<>>)
